@@ -416,6 +416,9 @@ TABLE_OPS = [
     ("rstrip", 3),
     ("optimize_width", 2),
     ("transpose", 2),
+    ("copy_area", 4),
+    ("copy_cell", 3),
+    ("copy_row", 3),
 ]
 
 
@@ -492,6 +495,15 @@ MAX_W = 14
 
 
 def gen_op(rng, vals, grid, enc, allow=None):
+    """One public operation (see _gen_op); 20 % of the operations that accept it pass
+    clone=False with a freshly built argument (the documented fast path)."""
+    op = _gen_op(rng, vals, grid, enc, allow)
+    if op["op"] in ("set_cell", "set_cells", "set_row", "insert_row", "append_row", "insert_cell", "append_cell") and not op.get("alias") and rng.random() < 0.2:
+        op["noclone"] = True
+    return op
+
+
+def _gen_op(rng, vals, grid, enc, allow=None):
     """One public operation, aimed using the encoding; returns a JSON-able dict."""
     for _ in range(50):
         name = _pick_weighted(rng, TABLE_OPS)
@@ -524,7 +536,18 @@ def gen_op(rng, vals, grid, enc, allow=None):
             if rng.random() < 0.15:
                 c, form = None, "none"
             key = "cells" if name == "set_cells" else "values"
-            return {"op": name, "coord": c, "form": form, key: data}
+            op = {"op": name, "coord": c, "form": form, key: data}
+            if name == "set_cells" and rng.random() < 0.3:
+                # the same Cell objects used several times (same line for every row / same cell
+                # repeated in a line): with the default clone=True the API must copy them
+                line = [gen_cell(rng, vals) for _ in range(rng.randint(1, 3))]
+                if rng.random() < 0.5:
+                    op["cells"] = [line for _ in range(nrows)]
+                    op["alias"] = "same-line"
+                else:
+                    op["cells"] = [[line[0]] * rng.randint(2, 4) for _ in range(nrows)]
+                    op["alias"] = "same-cell"
+            return op
         if name in ("set_row", "insert_row"):
             y = pick_y(rng, grid, enc)
             row = gen_row(rng, vals) if rng.random() > 0.08 else None
@@ -585,6 +608,29 @@ def gen_op(rng, vals, grid, enc, allow=None):
             return {"op": name, "x": x, "cells": [gen_cell(rng, vals, allow_rep=False) for _ in range(n)]}
         if name == "clear":
             return {"op": name}
+        if name == "copy_area":
+            # read an area with get_cells(), write it back elsewhere with set_cells()
+            if not (W and H):
+                continue
+            y = pick_y(rng, grid, enc, allow_beyond=False)
+            x = pick_x(rng, grid, enc, y, allow_beyond=False)
+            z = min(x + rng.choice([0, 1, 2]), W - 1)
+            t2 = min(y + rng.choice([0, 0, 1, 2]), H - 1)
+            dy = pick_y(rng, grid, enc)
+            dx = pick_x(rng, grid, enc, dy)
+            return {"op": name, "area": [x, y, z, t2], "to": [dx, dy], "flat_row": rng.random() < 0.3}
+        if name == "copy_cell":
+            if not (W and H):
+                continue
+            y = pick_y(rng, grid, enc, allow_beyond=False)
+            x = pick_x(rng, grid, enc, y)
+            dy = pick_y(rng, grid, enc)
+            dx = pick_x(rng, grid, enc, dy)
+            return {"op": name, "from": [x, y], "to": [dx, dy], "keep_repeated": rng.choice([True, True, False])}
+        if name == "copy_row":
+            if not H:
+                continue
+            return {"op": name, "from": pick_y(rng, grid, enc), "to": pick_y(rng, grid, enc), "how": rng.choice(["set_row", "insert_row", "append_row"])}
         if name == "rstrip":
             return {"op": name, "aggressive": rng.random() < 0.5}
         if name in ("optimize_width", "transpose"):
@@ -769,6 +815,30 @@ def apply_model(g: Grid, op, observed=None):
             g.set_cell(x, y, v, 1)
     elif o == "clear":
         g.clear()
+    elif o == "copy_area":
+        x, y, z, t2 = op["area"]
+        dx, dy = op["to"]
+        src = [list(g.rows[yy][x : z + 1]) for yy in range(y, min(t2, H - 1) + 1)]
+        if op.get("flat_row"):
+            src = [[v for r in src for v in r]]
+        for j, vals_ in enumerate(src):
+            if not vals_:
+                continue
+            g.pad_rows(dy + j + 1)
+            g.set_cells_seq(dx, dy + j, [(v, 1) for v in vals_])
+    elif o == "copy_cell":
+        x, y = op["from"]
+        dx, dy = op["to"]
+        g.set_cell(dx, dy, g.value(x, y), (observed or {}).get("cell_repeat", 1))
+    elif o == "copy_row":
+        src = list(g.rows[op["from"]]) if op["from"] < H else []
+        rr = (observed or {}).get("row_repeat", 1)
+        if op["how"] == "set_row":
+            g.set_row(op["to"], src, rr)
+        elif op["how"] == "insert_row":
+            g.insert_row(op["to"], src, rr)
+        else:
+            g.append_row(src, rr)
     elif o == "rstrip":
         # no styled or ""-valued cells are generated, so aggressive or not is the same grid
         while g.rows and all(v is None for v in g.rows[-1]):
@@ -892,36 +962,62 @@ def apply_real(t, op, observed):
     if o == "set_value":
         t.set_value(_co(op["coord"]), op["v"])
     elif o == "set_cell":
-        t.set_cell(_co(op["coord"]), mk_cell(op["cell"]))
-    elif o == "set_cells":
-        cells = [[mk_cell(c) for c in row] for row in op["cells"]]
-        if op["coord"] is None:
-            t.set_cells(cells)
+        if op.get("noclone") and op["cell"] is not None:
+            t.set_cell(_co(op["coord"]), mk_cell(op["cell"]), clone=False)
         else:
-            t.set_cells(cells, _co(op["coord"]))
+            t.set_cell(_co(op["coord"]), mk_cell(op["cell"]))
+    elif o == "set_cells":
+        if op.get("alias") == "same-line":
+            line = [mk_cell(c) for c in op["cells"][0]]
+            cells = [line for _ in op["cells"]]
+        elif op.get("alias") == "same-cell":
+            one = mk_cell(op["cells"][0][0])
+            cells = [[one] * len(row) for row in op["cells"]]
+        else:
+            cells = [[mk_cell(c) for c in row] for row in op["cells"]]
+        kw = {"clone": False} if op.get("noclone") else {}
+        if op["coord"] is None:
+            t.set_cells(cells, **kw)
+        else:
+            t.set_cells(cells, _co(op["coord"]), **kw)
     elif o == "set_values":
         if op["coord"] is None:
             t.set_values(op["values"])
         else:
             t.set_values(op["values"], _co(op["coord"]))
     elif o == "set_row":
-        t.set_row(op["y"], mk_row(op["row"]))
+        if op.get("noclone") and op["row"] is not None:
+            t.set_row(op["y"], mk_row(op["row"]), clone=False)
+        else:
+            t.set_row(op["y"], mk_row(op["row"]))
     elif o == "set_row_values":
         t.set_row_values(op["y"], op["values"])
     elif o == "set_row_cells":
         t.set_row_cells(op["y"], [mk_cell(c) for c in op["cells"]])
     elif o == "insert_row":
-        t.insert_row(op["y"], mk_row(op["row"]))
+        if op.get("noclone") and op["row"] is not None:
+            t.insert_row(op["y"], mk_row(op["row"]), clone=False)
+        else:
+            t.insert_row(op["y"], mk_row(op["row"]))
     elif o == "append_row":
-        t.append_row(mk_row(op["row"]))
+        if op.get("noclone") and op["row"] is not None:
+            t.append_row(mk_row(op["row"]), clone=False)
+        else:
+            t.append_row(mk_row(op["row"]))
     elif o == "extend_rows":
         t.extend_rows([mk_row(r) for r in op["rows"]])
     elif o == "delete_row":
         t.delete_row(op["y"])
     elif o == "insert_cell":
-        t.insert_cell(_co(op["coord"]), mk_cell(op["cell"]))
+        if op.get("noclone") and op["cell"] is not None:
+            t.insert_cell(_co(op["coord"]), mk_cell(op["cell"]), clone=False)
+        else:
+            t.insert_cell(_co(op["coord"]), mk_cell(op["cell"]))
     elif o == "append_cell":
-        t.append_cell(op["y"], mk_cell(op["cell"]))
+        if op.get("noclone") and op["cell"] is not None:
+            t.append_cell(op["y"], mk_cell(op["cell"]), clone=False)
+        else:
+            t.append_cell(op["y"], mk_cell(op["cell"]))
     elif o == "delete_cell":
         t.delete_cell(_co(op["coord"]))
     elif o == "set_column":
@@ -938,6 +1034,26 @@ def apply_real(t, op, observed):
         t.set_column_cells(op["x"], [mk_cell(c) for c in op["cells"]])
     elif o == "clear":
         t.clear()
+    elif o == "copy_area":
+        got = t.get_cells(tuple(op["area"]), flat=bool(op.get("flat_row")))
+        if op.get("flat_row"):
+            got = [got]
+        t.set_cells(got, tuple(op["to"]))
+    elif o == "copy_cell":
+        c = t.get_cell(tuple(op["from"]), keep_repeated=op["keep_repeated"])
+        observed["cell_repeat"] = c.repeated or 1
+        if not op["keep_repeated"] and observed["cell_repeat"] != 1:
+            raise AssertionError(f"get_cell(keep_repeated=False) returned repeated={c.repeated}")
+        t.set_cell(tuple(op["to"]), c)
+    elif o == "copy_row":
+        r = t.get_row(op["from"])
+        observed["row_repeat"] = r.repeated or 1
+        if op["how"] == "set_row":
+            t.set_row(op["to"], r)
+        elif op["how"] == "insert_row":
+            t.insert_row(op["to"], r)
+        else:
+            t.append_row(r)
     elif o == "rstrip":
         t.rstrip(aggressive=op["aggressive"])
     elif o == "transpose":
@@ -1029,7 +1145,7 @@ def classify(op, grid, enc):
             rep = op["n"] or 0
     except Exception:
         pass
-    key = f"{o}|row={rs}|cell={cs}|rep={'>1' if rep > 1 else '1'}|spill={int(sp)}|nextrep={int(nx)}"
+    key = f"{o}{'(clone=False)' if op.get('noclone') else ''}|row={rs}|cell={cs}|rep={'>1' if rep > 1 else '1'}|spill={int(sp)}|nextrep={int(nx)}"
     trivial = rs in ("single", "-") and cs in ("single", "-") and rep == 1 and not sp
     return key, not trivial
 
